@@ -276,9 +276,11 @@ class ResolverMixin:  # pylint: disable=too-few-public-methods
         for obj_name, obj in superclass_objects.items():
             if obj_name not in new_objects:
                 new_obj = obj.copy()
-                new_obj.propagated = True
-                assert obj.class_origin
-                new_obj.class_origin = obj.class_origin
+                # Parameters have neither propagated nor class_origin
+                if not isinstance(new_obj, CIMParameter):
+                    new_obj.propagated = True
+                    assert obj.class_origin
+                    new_obj.class_origin = obj.class_origin
                 for qualifier in new_obj.qualifiers.values():
                     qualifier.propagated = True
                 new_objects[obj_name] = new_obj
